@@ -252,6 +252,22 @@ where
         ctx.violation(format!("{}|image-bounding-box", tname), || base.clone(), || format!("{:?}", image.bounding_box()));
     }
     check_draw::<C, _>(ctx, tname, "image", &image, &want, w as u64 * h as u64, &|| format!("{} Image at ({},{})", base, o.x, o.y));
+    // the same offset reached in two steps: Image::new at o1, then moved by o - o1 with translate / translate_mut
+    {
+        use embedded_graphics::transform::Transform;
+        let o1 = Point::new(rng.i32r(-9, 9), rng.i32r(-9, 9));
+        let moved = Image::new(&raw, o1).translate(o - o1);
+        let mut moved_mut = Image::new(&raw, o1);
+        moved_mut.translate_mut(o - o1);
+        for (how, im) in [("translate", &moved), ("translate_mut", &moved_mut)] {
+            ctx.eval();
+            let mut t = IterTarget::<C>::new(unbounded_box());
+            let _ = im.draw(&mut t);
+            if !t.log().map.same(&want) || im.bounding_box() != rect(o.x, o.y, w, h) {
+                ctx.violation(format!("{}|image|offset-reached-with-{}", tname, how), || format!("{} Image::new at ({},{}) then {} by ({},{})", base, o1.x, o1.y, how, o.x - o1.x, o.y - o1.y), || format!("drawn map differs from the image at ({},{}) at {:?}; bounding box {:?}", o.x, o.y, t.log().map.first_diff(&want), im.bounding_box()));
+            }
+        }
+    }
     // bounded target that cuts the image
     {
         ctx.eval();
